@@ -27,7 +27,11 @@ SPEC = {
              "(fault gate in the store wrapper), random programs with random schedules; DomainRegistry: sequential Register/Unregister/LookupByHost "
              "histories compared with the model, and simultaneous Register calls of 2-8 claimants for one unclaimed name released by a barrier "
              "(half of the rounds: the registry's own write lock held through a verif-only shim, so all claimants sit at their first lock "
-             "acquisition and start together), each round judged by holdsReg. "
+             "acquisition and start together), each round judged by holdsReg; registry Rebuild / UnregisterByMappingID / IsSubdomainAvailable in the "
+             "sequential histories; entry-point histories (c19h): the real HTTPDomainCreateHandler / HTTPDomainDeleteHandler + repository adapter "
+             "(identity from ctx.ClientID), CleanupExpiredMappings, ListAllMappings, GetMappingsByClientID, IsSubdomainAvailable and "
+             "DomainProxyModule.ServeHTTP with a recording session manager, two repository instances over one store, compared with the "
+             "sequential expansion model and judged by holds + entryOK. "
              "non-trivial = more than one thread or a non-empty schedule; distinct = distinct case strings"),
     "trusted_base": [
         "Lean 4.33 kernel; axioms propext, Classical.choice, Quot.sound only (audited per theorem on every run)",
